@@ -144,11 +144,15 @@ def write_matrix_file(path, x, P, f):
 # ------------------------------------------------------------------ strategies
 @st.composite
 def matrices(draw, size=None):
-    size = size or draw(st.sampled_from(['tiny', 'small', 'small', 'big', 'big']))
+    size = size or draw(st.sampled_from(['tiny', 'small', 'small', 'big', 'big', 'wide']))
     if size == 'tiny':
         n, g = draw(st.integers(1, 4)), draw(st.integers(1, 4))
     elif size == 'small':
         n, g = draw(st.integers(1, 12)), draw(st.integers(1, 10))
+    elif size == 'wide':
+        # few cells, many genes: single rows with more than 100 stored entries (a cell expressing > 100 genes),
+        # so that one row alone exceeds the per-pass element budget of the CSC->CSR conversion at its minimum
+        n, g = draw(st.integers(2, 8)), draw(st.integers(110, 260))
     else:
         n, g = draw(st.integers(8, 40)), draw(st.integers(6, 30))
     fam = draw(st.sampled_from(['random'] * 6 + ['empty', 'single', 'full']))
@@ -156,7 +160,7 @@ def matrices(draw, size=None):
          'big': draw(st.integers(0, 3)) == 0, 'stored_zeros': draw(st.integers(0, 3)) == 0,
          'seed': draw(st.integers(0, 2 ** 31 - 1)), 'family': fam}
     if fam == 'random':
-        m['density'] = draw(st.sampled_from([0.1, 0.3, 0.6, 0.6, 0.9]))
+        m['density'] = draw(st.sampled_from([0.1, 0.3, 0.6, 0.6, 0.9] if size != 'wide' else [0.6, 0.9, 0.95]))
         m['empty_rows'] = draw(st.lists(st.integers(0, n - 1), max_size=3, unique=True)) if draw(st.booleans()) else []
         m['empty_cols'] = draw(st.lists(st.integers(0, g - 1), max_size=3, unique=True)) if draw(st.booleans()) else []
     return m
